@@ -59,6 +59,8 @@ INVARIANTS
   C17_PreVoteBeforeTerm
   C17_PreVoteNoStateChange
   C17_LeaseHolds
+  C17_LeaseFromContact
+  C17_NoCampaignInLease
   C17_CheckQuorumStepDown
   C19_SameOutputs
   C20_NothingInvented
